@@ -736,6 +736,12 @@ func c19R4(p *Prog, r *Report) {
 				}
 			}
 			r.Check(okIdx, rule, pre+":stores-best-index", cs.Pos(), "the published element is the scan's best index", "the published element is not indexed by the scan's best index of this round")
+			// a round may skip the store only when the published index already is the best one:
+			// the skipping edge is the equality edge of a comparison between the best index and a
+			// variable that follows the published index — zero like the constructor's choice at
+			// first, and assigned the best index in exactly the rounds that store
+			okTrack, whyTrack := c19StoreOrTracked(fc, wait, cs, bestIdx)
+			r.Check(okTrack, rule, pre+":every-round-publishes-or-already-best", cs.Pos(), whyTrack, "a round can end with a best index that differs from the published choice without storing it: "+whyTrack)
 		}
 		// wg.Add(len(pc.clients)) before sends; sends in range over pc.clients
 		okAdd := false
@@ -1419,4 +1425,135 @@ func c19R7(p *Prog, r *Report) {
 		r.Check(len(m) == 2 && m["TCPConnectivityProbeConfig"] == m["UDPConnectivityProbeConfig"], rule, "clientgroups:siblings-agree:"+pol, "clientgroups/probe.go", "TCP and UDP start the same probing method", fmt.Sprintf("the TCP and UDP constructors of the %s policy start different probing methods: %v", pol, m))
 	}
 	r.Floor(rule, 6)
+}
+
+// c19StoreOrTracked decides that every path from the round's wait to the next wait passes the
+// store, or leaves on the equality edge of `cur != best` / `cur == best` where cur is a variable
+// that always equals the published index (see the call site).
+func c19StoreOrTracked(fc *FuncCtx, wait int, store CallSite, bestIdx types.Object) (bool, string) {
+	info := fc.Info()
+	if bestIdx == nil {
+		return false, "the scan's best index was not found"
+	}
+	// paths of one round that avoid the store
+	skip := fc.G.ReachAfter(wait, func(v *Vertex) bool { return v.ID == store.V || v.ID == wait }, nil)
+	reWait := false
+	for _, e := range fc.G.V[wait].Preds {
+		if skip[e.From] {
+			reWait = true
+		}
+	}
+	if !reWait && !skip[fc.G.Exit] {
+		return true, "every round stores"
+	}
+	// the comparison whose equality edge the skipping paths must cross
+	var cur types.Object
+	var eqEdges []Edge
+	for _, v := range fc.G.V {
+		x, y, op, ok := condParts(v)
+		if !ok || y == nil || (op != token.EQL && op != token.NEQ) {
+			continue
+		}
+		xo, yo := objOf(info, x), objOf(info, y)
+		var other types.Object
+		switch {
+		case xo != nil && copyOfVar(fc, v.ID, xo, bestIdx, 0):
+			other = yo
+		case yo != nil && copyOfVar(fc, v.ID, yo, bestIdx, 0):
+			other = xo
+		}
+		if other == nil || !skip[v.ID] && !fc.G.Dominates([]int{v.ID}, store.V) {
+			continue
+		}
+		if cur != nil && cur != other {
+			return false, "the best index is compared with several variables"
+		}
+		cur = other
+		lab := LTrue
+		if op == token.NEQ {
+			lab = LFalse
+		}
+		for _, e := range v.Succs {
+			if e.Label == lab {
+				eqEdges = append(eqEdges, e)
+			}
+		}
+	}
+	if cur == nil {
+		return false, "a round can skip the store without comparing the best index with the current choice"
+	}
+	// every skipping path crosses an equality edge
+	isEq := map[Edge]bool{}
+	for _, e := range eqEdges {
+		isEq[e] = true
+	}
+	plain := fc.G.ReachAfter(wait, func(v *Vertex) bool { return v.ID == store.V || v.ID == wait }, func(e Edge) bool { return isEq[e] })
+	for _, e := range fc.G.V[wait].Preds {
+		if plain[e.From] {
+			return false, "a round can skip the store without the best index being equal to " + cur.Name()
+		}
+	}
+	// cur follows the published index
+	nSet := 0
+	for _, d := range fc.Defs(cur) {
+		switch n := fc.G.V[d].Node.(type) {
+		case *ast.ValueSpec:
+			if len(n.Values) == 0 {
+				continue
+			}
+			return false, cur.Name() + " does not start at the constructor's choice (index 0)"
+		case *ast.AssignStmt:
+			var rhs ast.Expr
+			if len(n.Lhs) == len(n.Rhs) {
+				for i, l := range n.Lhs {
+					if objOf(info, l) == cur {
+						rhs = n.Rhs[i]
+					}
+				}
+			}
+			if rhs == nil {
+				return false, cur.Name() + " is assigned something other than the best index"
+			}
+			if k, isC := constInt(info, rhs); isC && k == 0 && n.Tok == token.DEFINE && !fc.G.ReachAfter(wait, nil, nil)[d] {
+				continue // declared zero before the first round
+			}
+			ro := objOf(info, rhs)
+			if ro == nil || !copyOfVar(fc, d, ro, bestIdx, 0) {
+				return false, cur.Name() + " is assigned something other than the best index"
+			}
+			nSet++
+			// in exactly the rounds that store
+			if skip[d] {
+				// assigned before the store: the store follows on every path to the next round
+				afterD := fc.G.ReachAfter(d, func(v *Vertex) bool { return v.ID == store.V || v.ID == wait }, nil)
+				for _, e := range fc.G.V[wait].Preds {
+					if afterD[e.From] {
+						return false, cur.Name() + " can change in a round that does not store"
+					}
+				}
+			}
+		default:
+			return false, cur.Name() + " is modified by " + exprStr(fc.G.V[d].Node)
+		}
+	}
+	// a round that stores also updates cur: no path from the wait through the store to the next wait avoids every assignment
+	isSet := map[int]bool{}
+	for _, d := range fc.Defs(cur) {
+		if _, ok := fc.G.V[d].Node.(*ast.AssignStmt); ok && fc.G.ReachAfter(wait, nil, nil)[d] {
+			isSet[d] = true
+		}
+	}
+	noSet := fc.G.ReachAfter(wait, func(v *Vertex) bool { return isSet[v.ID] || v.ID == wait }, nil)
+	if noSet[store.V] {
+		after := fc.G.ReachAfter(store.V, func(v *Vertex) bool { return isSet[v.ID] || v.ID == wait }, nil)
+		for _, e := range fc.G.V[wait].Preds {
+			if after[e.From] {
+				return false, "a round that stores the best index leaves " + cur.Name() + " at the previous choice: a later round that finds the earlier choice best again is skipped"
+			}
+		}
+	}
+	if nSet == 0 {
+		return false, cur.Name() + " is never updated"
+	}
+	return true, "rounds that do not store leave on " + cur.Name() + " == best index, and " + cur.Name() + " is set to the best index in exactly the rounds that store"
 }
